@@ -1059,6 +1059,16 @@ fn apply_binary_operation(
 // `eq` returns a path to the values in `lhs` and `rhs` that differ, and the
 // type that differ, if `lhs` and `rhs` are of different types.
 fn eq(lhs: &Value, rhs: &Value) -> StdResult<bool, (String, String, String)> {
+    eq_visiting(lhs, rhs, &mut vec![])
+}
+
+// `visited` holds the pairs of containers whose comparison has been started.
+// A pair that is met again is either still being compared further up (the
+// values contain themselves) or was found equal earlier (otherwise the
+// comparison would have ended), so it is taken as equal.
+fn eq_visiting(lhs: &Value, rhs: &Value, visited: &mut Vec<(usize, usize)>)
+    -> StdResult<bool, (String, String, String)>
+{
     match (lhs, rhs) {
         (Value::Null, Value::Null) =>
             Ok(true),
@@ -1077,6 +1087,12 @@ fn eq(lhs: &Value, rhs: &Value) -> StdResult<bool, (String, String, String)> {
                 return Ok(true);
             }
 
+            let pair = (Arc::as_ptr(xs) as usize, Arc::as_ptr(ys) as usize);
+            if visited.contains(&pair) {
+                return Ok(true);
+            }
+            visited.push(pair);
+
             // The items are copied out so that neither list stays locked
             // while its items are compared (they may contain these lists).
             let xs = lock_deref!(xs).clone();
@@ -1090,7 +1106,7 @@ fn eq(lhs: &Value, rhs: &Value) -> StdResult<bool, (String, String, String)> {
                 let y = &ys[i];
 
                 let equal =
-                    match eq(&x.v, &y.v) {
+                    match eq_visiting(&x.v, &y.v, visited) {
                         Ok(v) => v,
                         Err((path, a, b)) => return Err((
                             format!("[{i}]{path}"),
@@ -1112,6 +1128,12 @@ fn eq(lhs: &Value, rhs: &Value) -> StdResult<bool, (String, String, String)> {
                 return Ok(true);
             }
 
+            let pair = (Arc::as_ptr(xs) as usize, Arc::as_ptr(ys) as usize);
+            if visited.contains(&pair) {
+                return Ok(true);
+            }
+            visited.push(pair);
+
             let xs = lock_deref!(xs).clone();
             let ys = lock_deref!(ys).clone();
 
@@ -1128,7 +1150,7 @@ fn eq(lhs: &Value, rhs: &Value) -> StdResult<bool, (String, String, String)> {
                     };
 
                 let equal =
-                    match eq(&x.v, &y.v) {
+                    match eq_visiting(&x.v, &y.v, visited) {
                         Ok(v) => v,
                         Err((path, a, b)) => return Err((
                             format!(".'{k}'{path}"),
